@@ -286,7 +286,7 @@ pub fn child_churn(seed: u64, threads: usize) {
     if bad.is_empty() { println!("OK churn {}", threads); } else { println!("FAIL {} of {} churning threads failed: {}", bad.len(), threads, bad[0]); std::process::exit(1); }
 }
 
-fn run_child(args: &[String], timeout: Duration) -> Result<String, String> {
+pub fn run_child(args: &[String], timeout: Duration) -> Result<String, String> {
     let exe = std::env::current_exe().map_err(|e| e.to_string())?;
     let mut child = Command::new(exe).args(args).stdout(Stdio::piped()).stderr(Stdio::piped()).spawn().map_err(|e| e.to_string())?;
     let st = Instant::now();
